@@ -45,6 +45,68 @@ func keysSexp(cfg *fedlab.Config) (string, string) {
 	return common.L(keys...), common.L(nested...)
 }
 
+// nestedKey: "id nk { code }" -> leaf part [id], nested part [(nk [code])]; ok only for one level of nesting.
+func nestedKey(text string) (leaves []string, nested [][2]interface{}, ok bool) {
+	toks := strings.Fields(strings.NewReplacer("{", " { ", "}", " } ").Replace(text))
+	i := 0
+	for i < len(toks) {
+		t := toks[i]
+		if t == "{" || t == "}" {
+			return nil, nil, false
+		}
+		if i+1 < len(toks) && toks[i+1] == "{" {
+			j := i + 2
+			var inner []string
+			for j < len(toks) && toks[j] != "}" {
+				if toks[j] == "{" || (j+1 < len(toks) && toks[j+1] == "{") {
+					return nil, nil, false
+				}
+				inner = append(inner, toks[j])
+				j++
+			}
+			if j >= len(toks) || len(inner) == 0 {
+				return nil, nil, false
+			}
+			nested = append(nested, [2]interface{}{t, inner})
+			i = j + 1
+			continue
+		}
+		leaves = append(leaves, t)
+		i++
+	}
+	return leaves, nested, len(nested) > 0
+}
+
+// nkeyDeclsSexp: (nkeydecls ("T" ("id") (("nk" ("code")))) ...) every key with one level of nesting any subgraph declares.
+func nkeyDeclsSexp(cfg *fedlab.Config) string {
+	seen := map[string]bool{}
+	out := []string{"nkeydecls"}
+	for _, g := range cfg.Subgraphs {
+		for _, t := range g.Types {
+			for _, k := range t.Keys {
+				id := t.Name + "|" + k
+				if seen[id] {
+					continue
+				}
+				seen[id] = true
+				if _, flat := flatKey(k); flat {
+					continue
+				}
+				leaves, nested, ok := nestedKey(k)
+				if !ok {
+					continue
+				}
+				ns := []string{}
+				for _, x := range nested {
+					ns = append(ns, common.L(common.QS(x[0].(string)), strsSX(x[1].([]string))))
+				}
+				out = append(out, common.L(common.QS(t.Name), strsSX(leaves), common.L(ns...)))
+			}
+		}
+	}
+	return common.L(out...)
+}
+
 func requiresSexp(cfg *fedlab.Config) string {
 	out := []string{"requires"}
 	seen := map[string]bool{}
@@ -72,7 +134,7 @@ func configSexp(cfg *fedlab.Config) string {
 		subs = append(subs, common.L(common.QS(g.Name), cfg.SubSchema(g).Sexp()))
 	}
 	k, nk := keysSexp(cfg)
-	return common.L("config", common.L("super", cfg.Super.Sexp()), common.L(subs...), k, nk, requiresSexp(cfg))
+	return common.L("config", common.L("super", cfg.Super.Sexp()), common.L(subs...), k, nk, requiresSexp(cfg), nkeyDeclsSexp(cfg))
 }
 
 // ---------------------------------------------------------------- directed operations
